@@ -47,6 +47,7 @@ type FuncContract struct {
 	Assumed  bool
 	ModeBV   bool
 	NoPanic  bool
+	NoReturn bool // the function never returns normally (ends in os.Exit): no exit-reachability canary
 	Inline   bool
 	Props    []string
 	Params   []string // explicit parameter names for external functions
@@ -287,7 +288,17 @@ func (c *Contracts) LoadFile(path string) error {
 				rest = r
 				assumed = true
 			}
+			// a key may contain a quoted literal with spaces: pkg.fn@"GET /x"
+			if i := strings.Index(rest, "@\""); i >= 0 {
+				if j := strings.Index(rest[i+2:], "\""); j >= 0 {
+					end := i + 2 + j + 1
+					rest = strings.ReplaceAll(rest[:end], " ", "\x00") + rest[end:]
+				}
+			}
 			fields := strings.Fields(rest)
+			for k := range fields {
+				fields[k] = strings.ReplaceAll(fields[k], "\x00", " ")
+			}
 			if len(fields) == 0 {
 				c.errf(path, ln, "missing function key")
 				continue
@@ -302,6 +313,8 @@ func (c *Contracts) LoadFile(path string) error {
 					}
 				case "nopanic":
 					fc.NoPanic = true
+				case "noreturn":
+					fc.NoReturn = true
 				case "inline":
 					fc.Inline = true
 				case "props":
